@@ -123,6 +123,15 @@ def faults(answer, plain, step=1, layouts=60):
             a = copy.deepcopy(answer)
             setp(a, ('matches', 1) + fld, s)
             out.append(('string:%s:%s' % ('.'.join(map(str, fld)), repr(s)[:12]), json.dumps(a).encode(), 0))
+    # context excerpts cut inside a character beyond the BMP, in front of / inside / behind the marked word
+    # (own stratum: run in every output mode)
+    for k, mm in enumerate(answer['matches'][:3]):
+        cx = mm['context']
+        for where, txt in (('front', '\udc4d' + cx['text']), ('behind', cx['text'] + '\ud83d'),
+                           ('inside', cx['text'][:cx['offset']] + '\ud83d' + cx['text'][cx['offset'] + 1:])):
+            a = copy.deepcopy(answer)
+            a['matches'][k]['context'] = dict(cx, text=txt, offset=cx['offset'] + (1 if where == 'front' else 0))
+            out.append(('surrogate:context-%s:m%d' % (where, k), json.dumps(a).encode(), 0))
     shapes = [[], {}, {'matches': {}}, {'matches': [1, 2]}, {'matches': [None]}, {'matches': [[]]}, {'matches': 'x'},
               {'matches': [{}]}, 5, 'str', None, {'matches': [{'offset': 1}]}, {'Matches': []}, [answer],
               {'matches': answer['matches'] * 40}]
@@ -227,7 +236,7 @@ class C15(core.Check):
                 by.setdefault(c[3], []).append(c)
             pick = []
             share = {'delete': 160, 'type': 500, 'value': 200, 'string': 320, 'shape': 80, 'truncate': 260,
-                     'truncate-utf8': 120, 'garbage': 40, 'exit': 8, 'valid': 16, 'command-missing': 8, 'layout': 400}
+                     'truncate-utf8': 120, 'garbage': 40, 'exit': 8, 'valid': 16, 'command-missing': 8, 'layout': 400, 'surrogate': 300}
             for k, lst in sorted(by.items()):
                 rnd.shuffle(lst)
                 pick += lst[:share.get(k, 20)]
@@ -331,7 +340,7 @@ class C15(core.Check):
 
     def quotas(self, tier):
         q = {'clean_errors': 300, 'reports_in_file': 100, 'valid_answer_runs': 8}
-        for k in ('delete', 'type', 'value', 'string', 'shape', 'truncate', 'truncate-utf8', 'garbage', 'layout'):
+        for k in ('delete', 'type', 'value', 'string', 'shape', 'truncate', 'truncate-utf8', 'garbage', 'layout', 'surrogate'):
             q['fault_' + k] = 30
         for m in MODES:
             q['mode_' + m] = 60
